@@ -87,7 +87,9 @@ struct Event
   char kind;      // Kind
   int obj;        // index of the mutex / condvar / rwlock in order of first use (-1 = none)
   long detail;    // TRYLOCK: 1 acquired / 0 busy; REACQ: 1 = timed out; SIGNAL: woken tid or -1; BCAST: number woken;
-                  // CREATE: child tid; JOIN: target tid; WAIT: 1 = timed
+                  // CREATE: child tid; JOIN: target tid; WAIT: 1 = timed; TIMEOUT: 1 = FORCED (no thread was enabled when it fired;
+                  // obj = the condition variable): a forced time-out of a sleeper whose wait predicate already holds is a lost wake-up
+                  // that a timed wait merely papers over
   const char* tag; // YIELD: the tag given to yield_point
 };
 
